@@ -27,7 +27,8 @@ EXTENDS Naturals, Sequences, FiniteSets, TLC, Json
 CONSTANTS GenFiles,      \* generated paths in play, subset of 1..4: 1 templated support file, 2 copied support file, 3 4 type files
           OtherFiles,    \* paths no run generates (subset of {5})
           Modes,         \* permission bits requested by --file-mode / left by the environment
-          Variants,      \* content-changing options: 0 plain, 1 longer (serialization asserts), 2 shorter (empty-line limit 0)
+          Variants,      \* content-changing options: 0 plain, 1 longer (serialization asserts), 2 shorter (empty-line limit 0,
+                         \* a line post-processor), 3 same length (trailing-white-space trimmer, a line post-processor)
           ChmodGate,     \* TRUE: _handle_overwrite adds u+w,g+w before the file is opened (the code); FALSE: negative control
           CopyGate,      \* TRUE: _copy_header goes through _handle_overwrite (the code); FALSE: negative control
           Truncates,     \* TRUE: open(..., "w") truncates (the code); FALSE: negative control ("r+" style rewrite)
@@ -88,10 +89,10 @@ PRun(before, o, fresh, fok, st, after) == FailedClauses(before, o, fresh, fok, s
 (* 3. I-layer: options, generated set, per-file steps (operators shared with the T-layer)                  *)
 (* ------------------------------------------------------------------------------------------------------ *)
 GS == {"never", "asneeded", "only", "always"}
-AllOpts == {o \in [fm : Modes, no : BOOLEAN, omit : BOOLEAN, gs : GS, v : Variants, lpp : BOOLEAN] :
-               /\ ~(o.omit /\ o.gs = "always")        \* rejected by the argument parser
-               /\ (o.v = 2 => o.lpp)}                 \* the empty-line limiter is a line post-processor
-NoOpts == [fm |-> 0, no |-> FALSE, omit |-> FALSE, gs |-> "never", v |-> 0, lpp |-> FALSE]
+AllOpts == {o \in [fm : Modes, no : BOOLEAN, omit : BOOLEAN, gs : GS, v : Variants] :
+               ~(o.omit /\ o.gs = "always")}          \* rejected by the argument parser
+NoOpts == [fm |-> 0, no |-> FALSE, omit |-> FALSE, gs |-> "never", v |-> 0]
+Lpp(o) == o.v \in {2, 3}                               \* a line post-processor is in force
 
 (* ArgparseRunner._should_generate_support; c/c++ support consists of serialization support only            *)
 SupportRuns(o) == IF o.gs = "asneeded" THEN ~o.omit ELSE o.gs \in {"always", "only"}
@@ -99,7 +100,7 @@ Gen(o) == GenFiles \cap ((IF SupportRuns(o) /\ ~o.omit THEN {1, 2} ELSE {}) \cup
 Order(o) == SelectSeq(<<1, 2, 3, 4>>, LAMBDA f : f \in Gen(o))     \* support generator first
 
 (* model contents: homogeneous sequences, so that a torn file (tail of an older, longer content) is visible *)
-Tag(f, o) == f * 1000 + (IF Kind(f) = "type" /\ o.omit THEN 100 ELSE 0) + (IF o.lpp THEN 10 ELSE 0) + o.v
+Tag(f, o) == f * 1000 + (IF Kind(f) = "type" /\ o.omit THEN 100 ELSE 0) + o.v
 FreshLen(f, o) == IF Kind(f) = "type" /\ o.omit THEN 1 ELSE IF o.v = 1 THEN 4 ELSE IF o.v = 2 THEN 2 ELSE 3
 FreshContent(f, o) == [i \in 1..FreshLen(f, o) |-> Tag(f, o)]
 Fresh(o) == [f \in Gen(o) |-> FreshContent(f, o)]
@@ -113,7 +114,7 @@ OpenDenied(d, f) == f \in DOMAIN d /\ ~Privileged /\ ~OwnerWritable(d[f].m)
 StepOpen(d, f) == IF f \in DOMAIN d THEN (IF Truncates THEN [d EXCEPT ![f].c = <<>>] ELSE d)
                   ELSE Put(d, f, [c |-> <<>>, m |-> CreateMode])
 StepWrite(d, f, o) == [d EXCEPT ![f].c = Overlay(FreshContent(f, o), @)]
-HasCopyMode(f, o) == Kind(f) = "copy" /\ ~o.lpp
+HasCopyMode(f, o) == Kind(f) = "copy" /\ ~Lpp(o)
 StepCopyMode(d, f) == [d EXCEPT ![f].m = ResourceMode]
 StepSetMode(d, f, o) == [d EXCEPT ![f].m = o.fm]
 
@@ -125,7 +126,7 @@ FsJ(d) == LET ps == SelectSeq(<<1, 2, 3, 4, 5>>, LAMBDA p : p \in DOMAIN d)
           IN [i \in 1..Len(ps) |-> [p |-> ps[i], c |-> d[ps[i]].c, m |-> d[ps[i]].m]]
 Log(rec) == IF Record THEN Append(hist, rec) ELSE hist
 Bounded == MaxSteps > 0
-CanStep == pc = "idle" /\ (Bounded => nsteps < MaxSteps)
+CanStep == pc = "idle" /\ status = "none" /\ (Bounded => nsteps < MaxSteps)
 Tick == IF Bounded THEN nsteps + 1 ELSE nsteps
 
 Init == /\ fs = Empty /\ pc = "idle" /\ queue = <<>> /\ opts = NoOpts /\ pre = Empty
@@ -180,10 +181,17 @@ SetMode ==
        ELSE /\ fs' = d /\ queue' = Tail(queue) /\ pc' = "ovw"
             /\ UNCHANGED <<opts, pre, status, hist, nsteps>>
 
+(* the end of a run is an observation point (RunEndOK is evaluated there); afterwards the run's bookkeeping is    *)
+(* forgotten so that equal directories are equal states                                                    *)
+Settle ==
+    /\ pc = "idle" /\ status # "none"
+    /\ pre' = Empty /\ opts' = NoOpts /\ status' = "none"
+    /\ UNCHANGED <<fs, pc, queue, hist, nsteps>>
+
 EnvDone(rec, d) ==
-    /\ fs' = d /\ pre' = Empty /\ opts' = NoOpts /\ status' = "none"
+    /\ fs' = d
     /\ hist' = Log(rec @@ [fs |-> FsJ(d)]) /\ nsteps' = Tick
-    /\ UNCHANGED <<pc, queue>>
+    /\ UNCHANGED <<pc, queue, pre, opts, status>>
 
 Foreign(p, k, m) ==
     /\ CanStep
@@ -198,11 +206,12 @@ Remove(p) ==
     /\ EnvDone([a |-> "remove", p |-> p], Del(fs, p))
 
 Next ==
-    \/ \E o \in AllOpts : StartRun(o)
-    \/ HandleOverwrite \/ OpenTruncate \/ Write \/ CopyMode \/ SetMode
-    \/ \E p \in AllPaths, k \in {"long", "short"}, m \in Modes : Foreign(p, k, m)
-    \/ \E p \in AllPaths, m \in Modes : Chmod(p, m)
-    \/ \E p \in AllPaths : Remove(p)
+    \/ /\ CanStep
+       /\ \/ \E o \in AllOpts : StartRun(o)
+          \/ \E p \in AllPaths, k \in {"long", "short"}, m \in Modes : Foreign(p, k, m)
+          \/ \E p \in AllPaths, m \in Modes : Chmod(p, m)
+          \/ \E p \in AllPaths : Remove(p)
+    \/ HandleOverwrite \/ OpenTruncate \/ Write \/ CopyMode \/ SetMode \/ Settle
 
 Spec == Init /\ [][Next]_vars
 
@@ -229,6 +238,6 @@ TypeOK ==
     /\ (pc # "idle" => queue # <<>> /\ opts \in AllOpts)
 
 (* case emission: one JSON history per behaviour of MaxSteps steps                                         *)
-Terminal == Bounded /\ pc = "idle" /\ nsteps = MaxSteps
+Terminal == Bounded /\ pc = "idle" /\ status = "none" /\ nsteps = MaxSteps
 Emit == (Record /\ Terminal) => PrintT(ToJson(hist))
 =============================================================================
